@@ -68,6 +68,14 @@ Example C10_sharp_empty_id_slot :
   map (fun o => o_consulted o) (run 2 true s0 0 [(0, true); (0, true); (1, false)]) = [[]; []; []].
 Proof. vm_compute. reflexivity. Qed.
 
+(* what the backend sets is stored in the session's jar before the header is released to the writer behind (to the client):
+   the model's serve step is atomic for this reason - a request of the session that arrives right after the response has
+   started already finds the cookies *)
+Theorem C10_jar_before_release :
+  sessionWriterOrder = ["w.wrapped.WriteHeader"; "w.wrapped.WriteHeader"; "cookieJar.SetCookies"; "w.wrapped.WriteHeader"]%string.
+Proof. reflexivity. Qed.
+Print Assumptions C10_jar_before_release.
+
 (* everything sessions share is the Cache (under its mutex): the package has no package-level variable *)
 Theorem C10_no_package_state : sessionsPackageVars = [].
 Proof. reflexivity. Qed.
